@@ -13,11 +13,14 @@ MON = ["C05"]
 replay = replay_case(PID)
 
 
+SEM = {"ddof": None}   # convention of the standard error, measured on runs with several final samples (see run())
+
+
 def job(D, geo, mode, nfs, mfe, seed, target="sphere_in", opts=None, script=None):
     o = {"max_fun_evals": mfe, "noise_final_samples": nfs}
     if opts:
         o.update(opts)
-    return dict(D=D, geo=geo, x0="in", mode=mode, target=target, cons=None, seed=seed, opts=o, monitors=MON, script=script or {})
+    return dict(D=D, geo=geo, x0="in", mode=mode, target=target, cons=None, seed=seed, opts=o, monitors=MON, script=script or {}, sem_ddof=SEM["ddof"])
 
 
 def run(ctx):
@@ -26,6 +29,20 @@ def run(ctx):
     seeds = ctx.seeds(1, 2)
     rep.assumptions += ["noise classes {alt, LOW, HIGH} of size 0.5*(1+..) around smooth landscapes; seeds %s" % seeds,
                         "either ddof accepted for the standard error; budgets below the initial design are outside the statement"]
+    # the statement says "standard error" without fixing population vs sample SD: take the convention the implementation
+    # shows with 3 and 5 final samples and hold *every* run to it (a single final sample gives a 2-element yval_vec)
+    SEM["ddof"] = None
+    conv = set()
+    for r in pmap(execute, [job(1, "lin", m, n_, 70, seeds[0]) for m in ("decl", "spec") for n_ in (3, 5)]):
+        st_ = r.get("stats", {})
+        m0, m1 = st_.get("sem_match_ddof0", 0), st_.get("sem_match_ddof1", 0)
+        if m0 and not m1:
+            conv.add(0)
+        elif m1 and not m0:
+            conv.add(1)
+    if len(conv) == 1:
+        SEM["ddof"] = conv.pop()
+    rep.set("standard_error_convention_ddof", SEM["ddof"])
     ng = gate([job(1, "lin", "spec", 1, 60, seeds[0]), job(2, "log", "auto", 3, 70, seeds[0], script={"noise": {"9": "LOW"}})])
     sink = E1Sink(rep, PID)
     # N_init per (mode, D): measured on the implementation
